@@ -51,7 +51,7 @@ CHECKS.update({
             "Executable Coq model of find_group_cohorts (incidence, exact cohorts, preference rules, containment merging, the asserts) with "
             "theorems for ALL inputs: incidence exact; in EVERY multi-block branch incl. the merging loop (any rows, any visiting order) the cohorts "
             "list every present label exactly once and each cohort's block set contains every block of its labels; 'blockwise' only if every label "
-            "is confined to one block. "
+            "is confined to one block; the per-axis block selection (_normalize_indexes: int / slice / list form) selects exactly the requested blocks. "
             "Tie: exact K2 correspondence (method, cohorts, order) on all small 1-D layouts x chunkings x merge + random 2-D / dense layouts; each real "
             "answer also checked against the soundness predicates; provenance sums (2**i) and dependency closures of real graphs.",
             NOTE_COMMON + "The consequence for real graphs (dependency closure of each output chunk, exactly-once contribution) is observed on "
